@@ -28,6 +28,9 @@ func optsString(o *rtapi.RunOpts) string {
 	if o.Debug {
 		p = append(p, "Debug")
 	}
+	if o.UseReader {
+		p = append(p, "via ParseReader")
+	}
 	if o.StatsPreload > 0 {
 		p = append(p, fmt.Sprintf("Statistics(&Stats{ExprCnt: %d})", o.StatsPreload))
 	} else if o.Statistics {
@@ -63,7 +66,11 @@ func scriptString(s map[int]*rtapi.Block) string {
 	var p []string
 	for _, id := range ids {
 		b := s[id]
-		p = append(p, fmt.Sprintf("%d:{pred=%d err=%q panic=%d ops=%d ret=%d}", id, b.Pred, b.Err, b.Panic, b.Ops, b.Ret))
+		nested := ""
+		if b.Nested != nil {
+			nested = fmt.Sprintf(" nested-Parse(%q)", *b.Nested)
+		}
+		p = append(p, fmt.Sprintf("%d:{pred=%d err=%q panic=%d ops=%d ret=%d%s}", id, b.Pred, b.Err, b.Panic, b.Ops, b.Ret, nested))
 	}
 	return strings.Join(p, " ")
 }
@@ -116,6 +123,11 @@ func buildOrCount(c *ShardCtx, text string, gen core.Gen) *core.Built {
 }
 
 // runGrammar runs all cases of the family on one grammar against the reference.
+// warmKey is what two calls of the same Parse are compared on.
+func warmKey(o *rtapi.Obs) string {
+	return fmt.Sprintf("val=%s errs=%v panic=%q exprs=%d diverged=%v", o.Val, msgs(o), o.Panic, o.ExprCnt, o.Diverged)
+}
+
 func runGrammar(c *ShardCtx, g *peg.Grammar, f *family) {
 	text := peg.Print(g, nil)
 	c.Res.Grammars++
@@ -165,6 +177,18 @@ func runGrammar(c *ShardCtx, g *peg.Grammar, f *family) {
 					c.Res.Evaluations++
 					if conf != nil && !obs.Diverged && len(conf.Runs) < 40 {
 						conf.Runs = append(conf.Runs, ConfRun{Input: in, Opts: oo, Script: script, Obs: obs})
+					}
+					// a second call in the same process (no cold start in between) returns the same:
+					// every 5th case, and never for runs that did not return
+					c.Res.warmSeen++
+					if c.Res.warmSeen%5 == 0 && !obs.Diverged && len(obs.Pool) == 0 {
+						o2 := o
+						obs2 := b.RunWarm(in, &o2, script)
+						c.Res.Counters["second_call_runs"]++
+						if k1, k2 := warmKey(obs), warmKey(obs2); k1 != k2 {
+							c.Report(Violation{Desc: "a second identical Parse call in the same process returns something else: " + k2 + " (first call: " + k1 + ")", Grammar: text, Gen: gen.String(), Input: string(in),
+								InputHex: hexOf(in), Opts: optsString(&o) + " " + scriptString(script) + " (called twice)"}, "")
+						}
 					}
 					co := f.cmp
 					co.MaxExpr = o.MaxExpr
